@@ -512,6 +512,22 @@ pub fn standalone<'d>(data: &'d [u8], c: &mut Choice<'d>, st: &mut WalkStats) {
     }
     let hl = len.min(4096);
     st.sink.0 = st.sink.0.wrapping_add(sysv_hash(&data[..hl]) as u64 + gnu_hash(&data[..hl]) as u64);
+    // names that saturate the running hash value (stack buffer: the walk stays allocation-free)
+    let mut nm = [0u8; 14];
+    let fillb = *c.pick(&[0x0fu8, 0xff, 0x1f, 0x7f, 0xef]);
+    let k = 5 + c.below(5) as usize;
+    for b in nm.iter_mut().take(k) {
+        *b = fillb;
+    }
+    nm[k] = c.u8();
+    nm[k + 1] = c.u8();
+    st.sink.0 = st.sink.0.wrapping_add(sysv_hash(&nm[..k + 2]) as u64 + gnu_hash(&nm[..k + 2]) as u64);
+    if let Some(h) = &sv {
+        let _ = fold!(st, h.find(&nm[..k + 2], &syms, &strs));
+    }
+    if let Some(h) = &gn {
+        let _ = fold!(st, h.find(&nm[..k + 2], &syms, &strs));
+    }
     // version iterators with absurd counts and starting offsets
     st.flags |= F_VERITER;
     let vd = sub(data, c);
